@@ -136,6 +136,15 @@ def inject(source, counter, writer):
                 counter.step()
                 return _orig(*a, **k)
             patch(_tf, 'TemporaryFile', temporary_file)
+        elif source == 'stream-seek':
+            # a buffered staging file reports a write error late - when it is rewound (its buffer is flushed then):
+            # the rewind must have happened before the destination is opened for writing
+            import tempfile as _tf
+            orig = _tf.TemporaryFile
+
+            def temporary_file(*a, _orig=orig, **k):
+                return _SeekProxy(_orig(*a, **k), counter)
+            patch(_tf, 'TemporaryFile', temporary_file)
         elif source == 'stream-write':
             for key in ('P8', 'PNG'):
                 cls = m[key]
@@ -154,6 +163,26 @@ def inject(source, counter, writer):
                     pass
             else:
                 setattr(obj, name, old)
+
+
+class _SeekProxy(object):
+    def __init__(self, real, counter):
+        self._real = real
+        self._counter = counter
+
+    def seek(self, *a):
+        self._counter.step()
+        return self._real.seek(*a)
+
+    def __enter__(self):
+        self._real.__enter__()
+        return self
+
+    def __exit__(self, *exc):
+        return self._real.__exit__(*exc)
+
+    def __getattr__(self, name):
+        return getattr(self._real, name)
 
 
 class _Proxy(object):
@@ -177,7 +206,7 @@ CLI_REWRITERS = ('luafmt', 'luamin', 'writep8')
 
 
 def sources_for(fmt):
-    s = ['lua-writer', 'sanity', 'stream-write', 'tempfile-create']
+    s = ['lua-writer', 'sanity', 'stream-write', 'stream-seek', 'tempfile-create']
     s += ['section:' + n for n in ('gfx', 'gff', 'map', 'sfx', 'music')]
     if fmt == 'p8':
         s.append('section:label')
